@@ -6,6 +6,8 @@ Aimed at the case split of the invariant proofs (coq/C01/Proofs*.v):
   * disconnect / reset of the leader with followers at various positions; of a follower; choke mid-queue,
   * all-corrupt pieces (update_failed, retry_most_popular, then do_all_failed), two corrupt peers agreeing /
     disagreeing, corrupt-then-honest retries, repeated failures beyond max_failed,
+  * reset-then-honest: the trace of honest_piece_completes_after_reset (corrupt peer alone until do_all_failed, then the
+    honest idle peer serves every block of the piece in turn, verdict, mark_completed, HAVE, done),
   * zero-length PIECE, wrong-length PIECE, unrequested blocks (wrong index / offset / length), answers out of order,
   * read segmentation (rc) of the library-side socket.
 """
@@ -118,6 +120,12 @@ def hand_cases():
     out.append((header(L[1], 6, 0, ["1k1"]), "F:12", "corrupt-then-honest"))
     out.append((header(L[7], 6, 0, ["3a", "0a"]), "P:0 W P:0 W P:0 W P:0 W T:130 F:20", "max-failed"))
     out.append((header(L[7], 6, 0, ["3a", "3a", "0a"]), "P:0 P:1 W P:0 P:1 W P:0 W P:1 W T:130 F:20", "max-failed"))
+    # honest_piece_completes_after_reset (coq/C01/ProofsLive.v): the corrupt peer alone supplies every block of a multi-block
+    # piece until do_all_failed (the honest peer is choked meanwhile), then leaves; the honest, idle peer is asked for every
+    # block again and completes the piece: [request, PIECE, data] per block, hash queue, verdict, mark_completed, HAVE, done
+    for lay in (L[3], L[4], L[5]):
+        out.append((header(lay, 6, 0, ["1a", "0a"]), "K:1 F:4 T:130 F:4 X:0 N:1 T:130 F:12", "reset-then-honest"))
+    out.append((header(L[5], 6, 0, ["2a", "0a"]), "K:1 F:4 T:130 F:4 N:1 T:130 F:12", "reset-then-honest"))
     # malformed answers
     out.append((header(L[6], 6, 7, ["0a"]), "Z:0 S:0:5 F:3", "malformed"))
     out.append((header(L[1], 6, 0, ["0a", "0a"]), "Z:0 Z:1 T:130 F:9", "malformed"))
